@@ -113,72 +113,6 @@ def rule_callorder(P) -> RuleResult:
     return res
 
 
-def rule_defaultclose(P) -> RuleResult:
-    res = RuleResult('R-DEFAULTCLOSE')
-    res.exhaustive = True
-    sh = P.module(SH)
-    shell = sh.classes.get('BQLShell')
-    parse = shell.methods.get('parse') if shell else None
-    if parse is None:
-        raise AnalysisError('anchor vanished: BQLShell.parse')
-    DEF = finite.Sym('DEFAULT')
-    ok = True
-    n = 0
-    # the default date must be a per-call value: a parameter of parse(), handed over by .run for that one statement
-    stores_ = [x for x in ast.walk(parse.node) if isinstance(x, ast.Assign) and unparse(x.targets[0]).endswith('.from_clause.close')]
-    if len(stores_) != 1:
-        raise AnalysisError(f'{parse.fq}: the store of the default close date not found')
-    src_v = stores_[0].value
-    if not (isinstance(src_v, ast.Name) and src_v.id in parse.params):
-        res.fail(parse.fq, 'defaultclose:state', f'the default close date is taken from `{unparse(src_v)}`, not from an argument of this '
-                 f'call: kept in the shell it survives the statement it was meant for and silently closes a later, unrelated '
-                 f'statement', loc(parse, stores_[0]))
-        return res
-    dparam = src_v.id
-    for is_select, is_from, close in itertools.product((True, False), (True, False), (None, False, finite.Sym('CLOSE'))):
-        n += 1
-        stored = []
-
-        def exprh(e, st, mm, _c=close):
-            s = unparse(e)
-            if s.endswith('.from_clause.close'):
-                return _c
-            return finite.Sym(s)
-
-        class M(finite.Machine):
-            def stmt(self, s, st):
-                if isinstance(s, ast.Assign) and isinstance(s.targets[0], ast.Attribute):
-                    stored.append((unparse(s.targets[0]), self.ev(s.value, st)))
-                    return st
-                return super().stmt(s, st)
-
-        def isinst(v, c, _s=is_select, _f=is_from):
-            u = unparse(c)
-            return _s if u.endswith('Select') else _f if u.endswith('From') else False
-        mach = M(expr=exprh, call=lambda e, st, mm: finite.Sym('STMT'), isinstance_=isinst,
-                 names={'self': finite.Sym('self'), parse.params[1]: finite.Sym('line'), dparam: DEF, 'kwargs': finite.Sym('kw')})
-        try:
-            mach.run(body_without_docstring(parse.node), {})
-        except finite.Return:
-            pass
-        want = is_select and is_from and not close
-        did = any(t.endswith('.from_clause.close') and v is DEF for t, v in stored)
-        if did != want or (not want and stored):
-            ok = False
-            res.fail(parse.fq, f'defaultclose:{int(is_select)}{int(is_from)}{"set" if close else "unset"}',
-                     f'statement {"is" if is_select else "is not"} a SELECT, FROM clause {"is" if is_from else "is not"} a FROM expression, '
-                     f'CLOSE {"given" if close else "not given"}: default close date {"applied" if did else "not applied"}; it must be '
-                     f'applied exactly when a SELECT has a FROM expression without CLOSE', loc(parse))
-            break
-    if ok:
-        res.ok({'function': parse.fq, 'cases': n})
-    run = shell.methods.get('do_run')
-    if run is None or unparse(run.node).count('default_close_date=query.date') < 2:
-        res.fail(f'{shell.fq}.do_run', 'defaultclose:run', '.run must execute the named query with the date of its query directive as default close date',
-                 loc(run) if run else '')
-    else:
-        res.ok({'function': run.fq, 'passes': 'default_close_date=query.date'})
-    return res
 
 
 # ----------------------------------------------------------------------
@@ -213,143 +147,6 @@ def rule_fieldflow(P) -> RuleResult:
 # statement *does* (not by variable names); a missing anchor is an unknown shape (AnalysisError), a found anchor with the
 # wrong property is a violation.
 
-def rule_pivotshape(P) -> RuleResult:
-    res = RuleResult('R-PIVOTSHAPE')
-    fi = P.func(QX, 'execute_query')
-    blk = None
-    for n in ast.walk(fi.node):
-        if isinstance(n, ast.If) and 'EvalPivot' in unparse(n.test):
-            blk = n
-    if blk is None:
-        raise AnalysisError('anchor vanished: the PIVOT branch of execute_query')
-    body = blk.body
-    construct = fi.fq + ':pivot'
-
-    def assigns():
-        for st in ast.walk(ast.Module(body=body, type_ignores=[])):
-            if isinstance(st, ast.Assign) and len(st.targets) == 1:
-                yield st
-
-    def fail(detail, msg, node=None):
-        res.fail(construct, 'pivotshape:' + detail, msg, loc(fi, node or blk))
-
-    def unknown(what):
-        raise AnalysisError(f'{fi.fq}: pivot branch: {what} not found: shape not understood')
-    n0 = len(res.findings)
-    # roles --------------------------------------------------------------
-    piv = [st for st in assigns() if isinstance(st.targets[0], ast.Tuple) and len(st.targets[0].elts) == 2
-           and unparse(st.value).endswith('.pivots')]
-    if len(piv) != 1:
-        unknown('`first, second = query.pivots`')
-    c1, c2 = (unparse(x) for x in piv[0].targets[0].elts)
-    pivots_src = unparse(piv[0].value)
-    sel = [st for st in assigns() if isinstance(st.value, ast.Call) and unparse(st.value.func) == 'execute_select'
-           and isinstance(st.targets[0], ast.Tuple)]
-    if len(sel) != 1:
-        unknown('`columns, rows = execute_select(...)`')
-    cols, rows = (unparse(x) for x in sel[0].targets[0].elts)
-    if unparse(sel[0].value.args[0]) != pivots_src[:-len('.pivots')] + '.query':
-        fail('source', 'the pivot is not computed from the underlying SELECT of this very statement', sel[0])
-    # remaining columns: all result columns but the two pivots
-    oth = [st for st in assigns() if isinstance(st.value, ast.ListComp) and 'range(len(' + cols + '))' in unparse(st.value)]
-    if len(oth) != 1:
-        unknown('the list of remaining column indexes')
-    othercols = unparse(oth[0].targets[0])
-    g = oth[0].value.generators[0]
-    iv = unparse(g.target)
-    if not (unparse(oth[0].value.elt) == iv and len(g.ifs) == 1 and unparse(g.ifs[0]) in (f'{iv} not in {pivots_src}', f'{iv} not in ({c1}, {c2})')):
-        fail('others', f'the remaining columns are all result columns except the two pivot columns; found `{unparse(oth[0].value)}`', oth[0])
-    nd = [st for st in assigns() if unparse(st.value) == f'len({othercols})']
-    if len(nd) != 1:
-        unknown('the number of remaining columns')
-    nother = unparse(nd[0].targets[0])
-    # keys: distinct values of the second column, ascending
-    kd = [st for st in assigns() if any(isinstance(x, (ast.SetComp, ast.GeneratorExp, ast.ListComp)) and unparse(x.elt).endswith(f'[{c2}]')
-                                        and unparse(x.generators[0].iter) == rows for x in ast.walk(st.value))]
-    if len(kd) != 1:
-        unknown('the set of values of the second pivot column')
-    keys = unparse(kd[0].targets[0])
-    v = kd[0].value
-    if not (isinstance(v, ast.Call) and unparse(v.func) == 'sorted' and not any(k.arg == 'reverse' for k in v.keywords)
-            and isinstance(v.args[0], (ast.SetComp,)) or
-            (isinstance(v, ast.Call) and unparse(v.func) == 'sorted' and isinstance(v.args[0], ast.Call) and unparse(v.args[0].func) == 'set')):
-        fail('keys', f'one block per *distinct* value of the second column, *ascending*: sorted(set of row[{c2}]); found `{unparse(v)}`', kd[0])
-    # naming switch
-    sw = [n for n in ast.walk(ast.Module(body=body, type_ignores=[])) if isinstance(n, ast.If) and nother in unparse(n.test)]
-    if len(sw) != 1:
-        unknown('the naming switch on the number of remaining columns')
-    if unparse(sw[0].test) not in (f'{nother} > 1', f'{nother} >= 2', f'1 < {nother}'):
-        fail('names-switch', f'value/column names apply exactly when more than one column remains; the switch is `{unparse(sw[0].test)}`', sw[0])
-    many, one = unparse(ast.Module(body=sw[0].body, type_ignores=[])), unparse(ast.Module(body=sw[0].orelse, type_ignores=[]))
-    if f'itertools.product({keys}, ' not in many or "/{" not in many:
-        fail('names-many', 'with several remaining columns the blocks are named value/column, key-major (product(keys, remaining columns))', sw[0])
-    if "f'{" not in one or '/' in one.split('+', 1)[-1]:
-        fail('names-one', 'with one remaining column each block is named by its key value', sw[0])
-    for part in (many, one):
-        if f"{cols}[{c1}].name" not in part or f"{cols}[{c2}].name" not in part:
-            fail('lead-name', 'the leading column is named first/second', sw[0])
-    # datatypes
-    dt = [st for st in assigns() if '.datatype' in unparse(st.value) and isinstance(st.value, ast.BinOp)]
-    if len(dt) != 1:
-        unknown('the list of result datatypes')
-    dv = dt[0].value
-    if not (isinstance(dv.op, ast.Add) and unparse(dv.left) == f'[{cols}[{c1}].datatype]' and isinstance(dv.right, ast.BinOp)
-            and isinstance(dv.right.op, ast.Mult) and unparse(dv.right.right) == f'len({keys})'
-            and '.datatype' in unparse(dv.right.left)):
-        fail('datatypes', "the leading column keeps the first pivot column's datatype and each of the len(keys) blocks repeats the "
-             f'datatypes of the remaining columns; found `{unparse(dv)}`', dt[0])
-    # rows: sorted by the first column, unconditionally, then grouped by it
-    sorts = [n for n in ast.walk(ast.Module(body=body, type_ignores=[])) if isinstance(n, ast.Call) and isinstance(n.func, ast.Attribute)
-             and n.func.attr == 'sort' and unparse(n.func.value) == rows]
-    srt_assign = [st for st in assigns() if unparse(st.targets[0]) == rows and isinstance(st.value, ast.Call) and unparse(st.value.func) == 'sorted']
-    grp = [n for n in ast.walk(ast.Module(body=body, type_ignores=[])) if isinstance(n, ast.For) and isinstance(n.iter, ast.Call)
-           and unparse(n.iter.func) == 'itertools.groupby']
-    if len(grp) != 1:
-        unknown('the loop over groups of rows sharing the first pivot value')
-    gl = grp[0]
-    keyok = lambda call: any(k.arg == 'key' and unparse(k.value) in (f'operator.itemgetter({c1})', f'lambda row: row[{c1}]', f'lambda r: r[{c1}]')
-                             for k in call.keywords)
-    if not keyok(gl.iter) or unparse(gl.iter.args[0]) != rows:
-        fail('rows', f'output rows are the groups of result rows sharing the value of the first pivot column; found `{unparse(gl.iter)}`', gl)
-    top_sorts = [st for st in body if isinstance(st, ast.Expr) and any(st.value is c for c in sorts)] + [st for st in body if st in srt_assign]
-    if not sorts and not srt_assign:
-        fail('rows-sorted', 'rows must be sorted by the first pivot column before they are grouped (groupby only merges adjacent rows)', gl)
-    elif not top_sorts:
-        fail('rows-sorted', 'the sort by the first pivot column is conditional: when it is skipped, groupby splits the rows of one value '
-             'into several output rows and the rows are not ascending', sorts[0] if sorts else srt_assign[0])
-    else:
-        call = sorts[0] if sorts else srt_assign[0].value
-        if not keyok(call) or any(k.arg == 'reverse' for k in call.keywords):
-            fail('rows-sorted', f'rows must be sorted ascending by the first pivot column; found `{unparse(call)}`', top_sorts[0])
-        elif body.index(top_sorts[0]) > next(i for i, st in enumerate(body) if any(x is gl for x in ast.walk(st))):
-            fail('rows-sorted', 'rows are sorted after they were grouped', top_sorts[0])
-    # block placement
-    idx = [st for st in ast.walk(gl) if isinstance(st, ast.Assign) and f'{keys}.index(' in unparse(st.value)]
-    if len(idx) != 1:
-        unknown('the block index computation')
-    iv2 = idx[0].value
-    want_idx = isinstance(iv2, ast.BinOp) and isinstance(iv2.op, ast.Add) and unparse(iv2.right) == '1' and isinstance(iv2.left, ast.BinOp) \
-        and isinstance(iv2.left.op, ast.Mult) and {unparse(iv2.left.left), unparse(iv2.left.right)} >= {nother} \
-        and re.fullmatch(re.escape(keys) + r'\.index\(\w+\[' + re.escape(c2) + r'\]\)', unparse(iv2.left.left if nother == unparse(iv2.left.right) else iv2.left.right))
-    if not want_idx:
-        fail('placement', f'the block of key k starts at keys.index(k) * (number of remaining columns) + 1; found `{unparse(iv2)}`', idx[0])
-    index = unparse(idx[0].targets[0])
-    sl = [st for st in ast.walk(gl) if isinstance(st, ast.Assign) and isinstance(st.targets[0], ast.Subscript) and isinstance(st.targets[0].slice, ast.Slice)]
-    if len(sl) != 1:
-        unknown('the block store into the output row')
-    s0 = sl[0].targets[0].slice
-    if not (unparse(s0.lower) == index and unparse(s0.upper).replace(' ', '') in (f'{index}+{nother}', f'{nother}+{index}')):
-        fail('placement', f'a block occupies [index : index + number of remaining columns]; found `[{unparse(s0)}]`', sl[0])
-    outrow = unparse(sl[0].targets[0].value)
-    od = [st for st in ast.walk(gl) if isinstance(st, ast.Assign) and unparse(st.targets[0]) == outrow]
-    if len(od) != 1:
-        unknown('the initial output row')
-    if 'None' not in unparse(od[0].value) or f'len({cols}) - 1' not in unparse(od[0].value).replace(f'len({cols})-1', f'len({cols}) - 1'):
-        fail('fill', f'missing combinations are NULL: the output row starts as [first value] + [None] * (columns - 1); found `{unparse(od[0].value)}`', od[0])
-    if len(res.findings) == n0:
-        res.ok({'function': fi.fq, 'probes': ['source', 'remaining columns', 'keys sorted distinct', 'naming switch', 'names', 'datatypes',
-                                              'rows sorted unconditionally + grouped', 'block placement', 'NULL fill']})
-    return res
 
 
 # ----------------------------------------------------------------------
@@ -399,59 +196,6 @@ def rule_settings(P) -> RuleResult:
     return res
 
 
-def rule_optused(P) -> RuleResult:
-    res = RuleResult('R-OPTUSED')
-    sh = P.module(SH)
-    mains = sh.toplevel_funcs.get('main')
-    if not mains:
-        raise AnalysisError('anchor vanished: shell.main')
-    fi = mains[-1]
-    opts = [unparse(d) for d in fi.node.decorator_list if 'click.option' in unparse(d) or 'click.argument' in unparse(d)]
-    params = fi.params
-    if len(opts) < 5:
-        raise AnalysisError('click options of main not found')
-    body = ast.Module(body=fi.node.body, type_ignores=[])
-    for p in params:
-        reads = [n for n in ast.walk(body) if isinstance(n, ast.Name) and n.id == p and isinstance(n.ctx, ast.Load)]
-        if not reads:
-            res.fail(fi.fq, f'optused:{p}', f'command line option `{p}` is accepted but never read: it has no effect', loc(fi))
-        else:
-            res.ok({'option': p, 'reads': len(reads)})
-    # the options reach the shell
-    shell = sh.classes.get('BQLShell')
-    init = shell.methods.get('__init__') if shell else None
-    calls = [n for n in ast.walk(body) if isinstance(n, ast.Call) and unparse(n.func) == 'BQLShell']
-    if init is None or len(calls) != 1:
-        raise AnalysisError('construction of BQLShell in main not understood')
-    ip = init.params[1:]
-    bound = {}
-    for i, a in enumerate(calls[0].args):
-        if i < len(ip):
-            bound[ip[i]] = unparse(a)
-    for k in calls[0].keywords:
-        bound[k.arg] = unparse(k.value)
-    for opt, param in (('format', 'format'), ('numberify', 'numberify'), ('output', 'outfile'), ('no_errors', 'no_errors'), ('filename', 'filename')):
-        if bound.get(param) != opt:
-            res.fail(fi.fq, f'optused:wire:{opt}', f'option `{opt}` must be passed to the shell as `{param}`; the shell receives `{bound.get(param)}`', loc(fi))
-        else:
-            res.ok({'option': opt, 'shell_parameter': param})
-    # and are used there
-    isrc = unparse(init.node)
-    if 'Settings(format=format, numberify=numberify)' not in isrc:
-        res.fail(init.fq, 'optused:settings', '-f and -m must initialise the format and numberify settings', loc(init))
-    rl = shell.methods.get('do_reload')
-    if 'no_errors' in ip:
-        gated = False
-        if rl is not None:
-            for n in ast.walk(rl.node):
-                if isinstance(n, ast.If) and 'print_errors' in unparse(ast.Module(body=n.body, type_ignores=[])):
-                    t = unparse(n.test).replace('(', '').replace(')', '')
-                    gated = 'not self.no_errors' in t and 'self.context.errors' in t
-        if not gated or 'self.no_errors = no_errors' not in isrc:
-            res.fail(f'{shell.fq}.do_reload', 'optused:no_errors', '-q must suppress the ledger error report printed when the ledger is loaded', loc(rl) if rl else '')
-        else:
-            res.ok({'option': 'no_errors', 'effect': 'error report skipped'})
-    return res
 
 
 def rule_dispatch(P) -> RuleResult:
